@@ -224,6 +224,7 @@ class Ctx:
         it = elem_type(self.T.param_type(init, self.imports_param))
         self.import_classes = {m[1] for m in members(it) if m[0] == "cls"} or {IMPORT_CLASS}
         self.pending_unary: list[tuple[str, str, str]] = []
+        self.r1_pending: list[dict] = []
 
     # -- roles -------------------------------------------------------------------------------------
     def is_graph(self, f: FuncInfo, e: ast.AST) -> bool:
@@ -962,11 +963,11 @@ def rule_r1_r3(cx: Ctx, cons: list[FuncInfo]) -> Flow:
                     sf, sn = stray[0]
                     res.undecide("C09.R1", key, f"`{norm(a, 40)}` reaches {what} without a recognised truncation, but {sf.qualname} uses the limit in `{header(stmt_of(sn))}` in a way that is not understood", where(f, node))
                     continue
-                res.add(
-                    "C09.R1", key, ok,
-                    "flattened name" if ok else f"`{norm(a, 40)}` reaches {what} without having passed the level-limit truncation: with a level limit, nodes/edges below the limit enter the graph (or are looked up) un-truncated",
-                    where(f, node), kind="flow",
-                )
+                if ok:
+                    res.add("C09.R1", key, True, "flattened name", where(f, node), kind="flow")
+                else:
+                    # a may-flow finding: confronted with the values that reach this sink when the constructor is evaluated (rule_r6)
+                    cx.r1_pending.append({"key": key, "f": f, "node": node, "arg": a, "what": what, "where": where(f, node)})
     for f in cons:
         for w in E.writes(f):
             if w.root_kind not in ("classvar", "global"):
@@ -1212,7 +1213,43 @@ class ModelGraph:
             "successors": lambda n: [v for (u, v) in self.edges if u == n], "predecessors": lambda n: [u for (u, v) in self.edges if v == n],
             "nodes": lambda: list(self.nodes), "edges": lambda: list(self.edges),
         }
-        self.native = NativeObj("<model of networkx.DiGraph>", m, {}, poison_ok=True)
+
+        def no_options(what: str, result):
+            def call(*a: object, **k: object):
+                if a or k:
+                    raise Unknown(f"{what}(...) with arguments is not modelled")
+                return result()
+
+            return call
+
+        views = {
+            "nodes": NativeObj("<nodes view>", {"__contains__": self.has_node, "__iter__": lambda: list(self.nodes), "__getitem__": self.node_attrs, "__call__": no_options("nodes", lambda: list(self.nodes))}, {}, poison_ok=True),
+            "edges": NativeObj("<edges view>", {"__contains__": self.has_edge_pair, "__iter__": lambda: list(self.edges), "__getitem__": self.edge_attrs, "__call__": no_options("edges", lambda: list(self.edges))}, {}, poison_ok=True),
+        }
+        for k in views:
+            del m[k]
+        self.native = NativeObj("<model of networkx.DiGraph>", m, views, poison_ok=True)
+
+    def node_attrs(self, n: object = POISON):
+        if not self._ok(n):
+            return POISON
+        if n not in self.nodes:
+            raise Raised("KeyError")
+        return self.nodes[n]
+
+    def has_edge_pair(self, e: object = POISON):
+        if not isinstance(e, tuple) or len(e) != 2:
+            self.unreliable = self.unreliable or "membership of something that is not a pair in the edges of the graph"
+            return POISON
+        return self.has_edge(*e)
+
+    def edge_attrs(self, e: object = POISON):
+        if not isinstance(e, tuple) or len(e) != 2 or not self._ok(*e):
+            self.unreliable = self.unreliable or "subscript of the edges of the graph with something that is not a pair of names"
+            return POISON
+        if e not in self.edges:
+            raise Raised("KeyError")
+        return self.edges[e]
 
     def _ok(self, *names: object) -> bool:
         for n in names:
@@ -1305,9 +1342,31 @@ def rule_r6(cx: Ctx, records: list[tuple]) -> bool:
         created.append(g)
         return g.native
 
-    def build(ev: Evaluator, lim: object) -> tuple[ModelGraph | None, str | None]:
+    # sinks for which the static flow (R1) could not show a truncation: the values that reach them are recorded
+    seen_at: dict[int, dict[object, list]] = {}
+
+    def watch(ev: Evaluator, lim: object) -> None:
+        for k, p in enumerate(cx.r1_pending):
+            a = p["arg"]
+            if any(isinstance(x, (ast.Call, ast.Lambda, ast.NamedExpr, ast.Await, ast.Yield, ast.YieldFrom, ast.ListComp, ast.SetComp, ast.DictComp, ast.GeneratorExp)) for x in ast.walk(a)):
+                continue  # evaluating it a second time could have effects
+            st = stmt_of(p["node"])
+
+            def hook(fr: Frame, a=a, k=k, lim=lim) -> None:
+                try:
+                    v = Evaluator(cx.repo, tolerant=True).ev(a, fr)
+                except (Unknown, Raised):
+                    v = POISON
+                seen_at.setdefault(k, {}).setdefault(lim, []).append(v)
+
+            prev = ev.stmt_hooks.get(id(st))
+            ev.stmt_hooks[id(st)] = hook if prev is None else (lambda fr, h1=prev, h2=hook: (h1(fr), h2(fr)))
+
+    def build(ev: Evaluator, lim: object, observe: bool = False) -> tuple[ModelGraph | None, str | None]:
         del created[:]
         before = ev.uncertain_exits
+        if observe and lim is not None:
+            watch(ev, lim)
         try:
             ev._construct(cx.g, [], {cx.modules_param: list(modules), cx.imports_param: list(imports), cx.limit_param: lim})
         except (Unknown, Raised) as e:
@@ -1322,11 +1381,12 @@ def rule_r6(cx: Ctx, records: list[tuple]) -> bool:
 
     models = {"networkx.DiGraph": factory, "networkx.classes.digraph.DiGraph": factory}
     for lim in (None, 1, 2, 3):
-        g_, why = build(Evaluator(cx.repo, tolerant=True, lib_models=models), lim)
+        g_, why = build(Evaluator(cx.repo, tolerant=True, lib_models=models), lim, observe=True)
         if g_ is None:
             res.observe(f"C09.R6: the construction is not tabulated on the model graph ({why}); the other rules decide")
             return False
         graphs[lim] = g_
+    cx.r6_seen = seen_at
     full = graphs[None]
     if not full.nodes or not full.edges:
         res.observe("C09.R6: the model graph stays empty without a limit; the other rules decide")
@@ -1657,6 +1717,24 @@ def run(repo: Repo) -> Result:
     flow = rule_r1_r3(cx, cons)
     rule_r2(cx, cons, flow)
     tabulated = rule_r6(cx, getattr(cx, "import_records", []))
+    for k, p in enumerate(cx.r1_pending):
+        a = p["arg"]
+        obs = getattr(cx, "r6_seen", {}).get(k, {}) if tabulated and not any(o.rule == "C09.R6" and not o.ok for o in res.obligations) else {}
+        values = {lim: [x for v in vs for x in (Flattening._leaves(v) or [POISON])] for lim, vs in obs.items()}
+        contradicted = bool(values) and all(values.get(lim) for lim in (1, 2, 3)) and all(isinstance(x, str) and trunc(x, lim) == x for lim, xs in values.items() for x in xs)
+        if contradicted:
+            n_obs = sum(len(xs) for xs in values.values())
+            res.add(
+                "C09.R1", p["key"], True,
+                f"the static flow cannot follow `{norm(a, 40)}` to a truncation, but every value that reaches this {p['what']} when the constructor is evaluated on the model inputs (limits 1, 2, 3; {n_obs} values, deep names included) is a truncated name",
+                p["where"], kind="flow",
+            )
+        else:
+            res.add(
+                "C09.R1", p["key"], False,
+                f"`{norm(a, 40)}` reaches {p['what']} without having passed the level-limit truncation: with a level limit, nodes/edges below the limit enter the graph (or are looked up) un-truncated",
+                p["where"], kind="flow",
+            )
     for pkey, detail, wh in cx.pending_unary:
         if tabulated:
             res.observe(f"C09.R2: {detail} - judged by the construction table (C09.R6)")
